@@ -50,10 +50,14 @@ func c18Addrs() []expr.Expr {
 		expr.NewRegLoad("x", 8),
 		expr.NewBinary(expr.Add, expr.NewRegLoad("x", 8), ir.ConstU(4, 1), 8),
 		expr.NewMemLoad("mem", ir.ConstU(0, 8), 8),
+		// registers the history itself writes (with constants): the address still does not reduce
+		// to a constant, whatever the register file holds
+		expr.NewRegLoad("a", 8),
+		expr.NewBinary(expr.Add, expr.NewRegLoad("b", 8), ir.ConstU(0x20, 1), 8),
 	}
 }
 
-var c18AddrConst = []int64{0x20, 0x22, 0x20, -1, -1, -1}
+var c18AddrConst = []int64{0x20, 0x22, 0x20, -1, -1, -1, -1, -1}
 
 func c18Snapshot(s *state.State) string {
 	var parts []string
@@ -226,7 +230,7 @@ func c18Run(c c18Case) (*eng.Fail, int) {
 func init() {
 	checks["C18"] = eng.Check{
 		Hist: true,
-		Rule: "every history of <=3 operations over {Apply(RegStore) and RegMap.Store to keys a,b with 6 value shapes (constants of width 1,2,4, register load, memory load, binary) at write widths 1,2,4 (and 8,16,40,255 for three shapes); register copies (the expression read from one register at width 1,2,4 written to the other, so that both hold one object); Apply(MemStore) with constant / foldable / non-constant addresses (6 shapes) at widths 1,2,4; a register called like the memory space and a memory space called like a register} on a fresh real State (quick: <=2 operations over this alphabet and all 3-operation histories over the register-only sub-alphabet of 30 operations); after every operation (and, in a second run of each history, only after the last one) Load(k,w) for k in {a,b,c}, w in {1,2,3,4,8,16,33,255} compared (presence, width, value under 5 valuations) with the last written value adjusted to its write width then to the read width; refused memory writes must leave the full state snapshot unchanged; accepted ones are compared byte-wise; the values handed in are digest-checked after the history. Non-trivial = history with >=2 operations.",
+		Rule: "every history of <=3 operations over {Apply(RegStore) and RegMap.Store to keys a,b with 6 value shapes (constants of width 1,2,4, register load, memory load, binary) at write widths 1,2,4 (and 8,16,40,255 for three shapes); register copies (the expression read from one register at width 1,2,4 written to the other, so that both hold one object); Apply(MemStore) with constant / foldable / non-constant addresses (8 shapes, incl. addresses reading registers the history wrote with constants) at widths 1,2,4; a register called like the memory space and a memory space called like a register} on a fresh real State (quick: <=2 operations over this alphabet and all 3-operation histories over the register-only sub-alphabet of 30 operations); after every operation (and, in a second run of each history, only after the last one) Load(k,w) for k in {a,b,c}, w in {1,2,3,4,8,16,33,255} compared (presence, width, value under 5 valuations) with the last written value adjusted to its write width then to the read width; refused memory writes must leave the full state snapshot unchanged; accepted ones are compared byte-wise; the values handed in are digest-checked after the history. Non-trivial = history with >=2 operations.",
 		Run: func(r *eng.Run) {
 			var alpha []c18Op
 			for _, k := range []string{"a", "b"} {
@@ -244,7 +248,7 @@ func init() {
 					alpha = append(alpha, c18Op{Kind: "reg", Key: "a", Val: v, W: w})
 				}
 			}
-			for a := 0; a < 6; a++ {
+			for a := 0; a < 8; a++ {
 				for _, v := range []int{1, 3} {
 					for _, w := range []int{1, 2, 4} {
 						alpha = append(alpha, c18Op{Kind: "mem", Val: v, W: w, Addr: a})
